@@ -12,7 +12,7 @@ from fractions import Fraction as Fr
 import torch
 
 from ..core import History, Inconclusive, Stats, Violation, thash
-from ..gen import COSTS, STOCK_KINDS, bs_ok, gen_derivative, gen_hedger, gen_primary
+from ..gen import COSTS, STOCK_KINDS, bs_ok, gen_clauses, gen_derivative, gen_hedger, gen_primary
 from ..world import DT, HAS_VOL, OPTION_KINDS, World, abstract_state, cast_module_outputs
 
 ID = "C01"
@@ -33,7 +33,7 @@ ASSUMPTIONS = [
     "'direct_pl' in operations_by_kind",
 ]
 PROBES = ["cost_pos_and_trade", "H2", "H3", "listed_hedge", "first_cost_disabled", "cost_none", "payoff_none",
-          "negative_price", "shock_before_pl", "multi_primary", "float64", "exact_repeat_position", "sign_flip", "compute_pnl"]
+          "negative_price", "shock_before_pl", "multi_primary", "float64", "exact_repeat_position", "sign_flip", "compute_pnl", "pl_under_grad", "payoff_with_clauses"]
 
 
 def generate(rng):
@@ -43,6 +43,8 @@ def generate(rng):
     prims = [p0]
     steps = rng.nsteps([2, 3, 4, 5, 7, 10])
     d = gen_derivative(rng, "d0", p0, kinds=OPTION_KINDS + ["EuropeanForwardStartOption", "VarianceSwap"], steps=steps)
+    if rng.chance(0.35):
+        d["clauses"] = gen_clauses(rng, rng.randint(1, 2))  # the hedger must subtract payoff(), not payoff_fn()
     derivs = [d]
     hedge = ["p0"]
     mode = rng.choice(["single", "single", "listed", "listed2", "multi", "multi_listed"])
@@ -88,7 +90,8 @@ def generate(rng):
         k = rng.wchoice([("hedger_pl", 6), ("shock", 3), ("resim", 1), ("direct_pl", 3)])
         if k == "hedger_pl":
             which = rng.wchoice([("pl", 4), ("portfolio", 3), ("pnl", 1)])
-            op = {"op": "hedger_pl", "which": which, "hedger": "h0", "derivative": "d0", "hedge": hedge}
+            op = {"op": "hedger_pl", "which": which, "hedger": "h0", "derivative": "d0", "hedge": hedge,
+                  "grad_mode": rng.choice(["no_grad", "no_grad", "enable_grad"])}
             if which == "pnl":
                 if len(prims) > 1:
                     op["which"] = "pl"
@@ -264,7 +267,7 @@ def _execute(program, stats, hist):
             h.to(dtype0)
             cast_module_outputs(h.inputs, dtype0)
             try:
-                with torch.no_grad():
+                with (torch.enable_grad() if op.get("grad_mode") == "enable_grad" else torch.no_grad()):
                     if which == "pnl":
                         torch.manual_seed(op["torch_seed"])
                         rep = h.compute_pnl(d, hedge=hedge, n_paths=op["n_paths"])
@@ -275,6 +278,13 @@ def _execute(program, stats, hist):
                         rep = h.compute_portfolio(d, hedge=hedge)
             except Exception as e:
                 raise Violation(ID, "op_raised", "%s:%s" % (site, type(e).__name__), {"error": repr(e), "op": op}, seq)
+            finally:
+                torch.set_grad_enabled(True)
+            rep = rep.detach()
+            if op.get("grad_mode") == "enable_grad":
+                stats.probe("pl_under_grad")
+            if program["world"]["derivatives"][0].get("clauses"):
+                stats.probe("payoff_with_clauses")
             # the oracle gathers its own inputs, independently of how Hedger wires them
             insts = hedge if hedge is not None else list(d.underliers())
             try:
